@@ -238,14 +238,18 @@ def latency_list(ctx, pairs):
 
     A PING emitted while an upgrade is in progress is held by the server until the upgrade completes, and its timeout
     runs from the emission; the settings keep (duration of the handshake + one round trip) = 6 delays within
-    ping_timeout, so that the peer's PONG is always within ping_timeout of the PING's emission."""
+    ping_timeout (four on polling-only connections, where a PING may have to wait for the next poll), so that the PONG of the
+    peer is always within ping_timeout of the emission of the PING."""
     ps = []
     lats = (0.125, 0.25, 0.375) if ctx.quick else (0.0625, 0.125, 0.1875, 0.25, 0.3125, 0.375, 0.4375)
     for c, s in pairs:
         combos = []
-        for tr in (['polling'], ['websocket']):
-            for hb in ([1.0, 1.0], [2.0, 1.0]):
-                combos += [(tr, hb, lat) for lat in lats]
+        for hb in ([1.0, 1.0], [2.0, 1.0]):
+            combos += [(['websocket'], hb, lat) for lat in lats]
+            # on polling a PING can fall due just after a poll was answered: it then waits a round trip for the next poll
+            # and its PONG needs another, so four delays must stay within ping_timeout
+            combos += [(['polling'], hb, lat) for lat in lats if 4 * lat <= hb[1]]
+        combos += [(['polling'], [1.0, 3.0], lat) for lat in lats if 4 * lat > 1.0]
         for hb, ls in (([1.0, 1.0], (0.0625, 0.125)), ([0.5, 1.0], (0.0625, 0.125)), ([0.75, 1.0], (0.125,)),
                        ([1.0, 3.0], (0.25, 0.375)), ([2.0, 3.0], (0.375, 0.4375))):
             combos += [(None, hb, lat) for lat in ls]
